@@ -627,6 +627,11 @@ func (d *Daemon) Started() bool {
 	for i := 0; i < 64 && !d.started; i++ {
 		runtime.Gosched()
 	}
+	// (a loaded machine may need real time to schedule a fresh goroutine; the wait is
+	// only ever spent when there is none)
+	for i := 0; i < 40 && !d.started; i++ {
+		time.Sleep(5 * time.Millisecond)
+	}
 	return d.started
 }
 
